@@ -33,15 +33,25 @@ def descend (k : Key) : Trie → List (Trie × Bool) → Trie × List (Trie × B
     else if (p ++ [true]) <+: k then descend k r ((l, false) :: acc)
     else (.node p l r, acc)
 
+/-- the node hash the code uses, over a byte hash `H` (`crypto.Hash`): `H(lk ‖ lv ‖ rk ‖ rv)` -/
+def h4 (H : Bytes → Bytes) (a b c d : Bytes) : Bytes := H (a ++ b ++ (c ++ d))
+
+/-- a sibling as a proof element: its key bytes, its value, `Bitmask` = 1 when it is the right child -/
+def toPNode (H4 : Bytes → Bytes → Bytes → Bytes → Bytes) (s : Trie × Bool) : PNode :=
+  { key := encodeKey s.1.key, value := s.1.value H4, bitmask := if s.2 then 1 else 0 }
+
+/-- where the traversal from the root stops, and the siblings on the way (bottom-up) -/
+def descendTop (k : Key) (l r : Trie) : Trie × List (Trie × Bool) :=
+  -- from the root the first step is taken unconditionally by bit 0 of the target
+  if k.headD false = false then descend k l [(r, true)] else descend k r [(l, false)]
+
 /-- `GetMerkleProof` on a tree whose top node is the root (the root's own prefix is never compared) -/
 def prove (H4 : Bytes → Bytes → Bytes → Bytes → Bytes) (t : Trie) (k : Key) : List PNode :=
   match t with
   | .leaf _ _ => []
   | .node _ l r =>
-    -- from the root the first step is taken unconditionally by bit 0 of the target
-    let (stop, sibs) := if k.headD false = false then descend k l [(r, true)] else descend k r [(l, false)]
-    { key := encodeKey stop.key, value := stop.value H4, bitmask := 0 } ::
-      sibs.map fun (s, right) => { key := encodeKey s.key, value := s.value H4, bitmask := if right then 1 else 0 }
+    { key := encodeKey (descendTop k l r).1.key, value := (descendTop k l r).1.value H4, bitmask := 0 } ::
+      (descendTop k l r).2.map (toPNode H4)
 
 /-! ## `VerifyProof` as it is -/
 namespace V
@@ -304,18 +314,23 @@ def validNodeKey (n : Nat) (b : Bytes) : Bool :=
     lastBits ≤ 8 && (b.length - 2) * 8 + lastBits ≤ n
   | _ => false
 
-/-- the hash fold of the repaired verifier: (current key bits, hash so far, branchBits) over the siblings;
+/-- the hash fold of the repaired verifier over the siblings (current key bits, hash so far);
 `none` = `ErrInvalidMerkleTreeProof` (a child key is a prefix of the other, or an empty prefix below the top) -/
-def foldFixed (H : Bytes → Bytes) : Key → Bytes → Nat → Bool → List PNode → Option (Bytes × Nat)
-  | _, hash, branch, _, [] => some (hash, branch)
-  | cur, hash, branch, first, p :: rest =>
+def foldFixed (H4 : Bytes → Bytes → Bytes → Bytes → Bytes) : Key → Bytes → List PNode → Option Bytes
+  | _, hash, [] => some hash
+  | cur, hash, p :: rest =>
     let sib := decodeKey p.key
-    let curBytes := encodeKey cur
-    let hash' := if p.bitmask = 0 then H (p.key ++ p.value ++ (curBytes ++ hash)) else H (curBytes ++ hash ++ (p.key ++ p.value))
+    let hash' := if p.bitmask = 0 then H4 p.key p.value (encodeKey cur) hash
+                 else H4 (encodeKey cur) hash p.key p.value
     let g := gcp cur sib
     if g.length = min cur.length sib.length then none
     else if (g.length = 0) != rest.isEmpty then none
-    else foldFixed H g hash' (if first then g.length + 1 else branch) false rest
+    else foldFixed H4 g hash' rest
+
+/-- `branchBits`: the length of the shortest prefix that identifies `proof[0]`'s side below its parent -/
+def branchBits (proven : Key) : List PNode → Nat
+  | [] => 0
+  | p1 :: _ => (gcp proven (decodeKey p1.key)).length + 1
 
 /-- the outcomes the repaired verifier can have: no panic, no unbounded loop -/
 inductive FVerdict where
@@ -328,7 +343,7 @@ def FVerdict.toVerdict : FVerdict → V.Verdict
   | .errInvalidProof => .errInvalidProof
   | .errReserved => .errReserved
 
-def verifyFixedF (H : Bytes → Bytes) (n : Nat) (userKey value : Bytes) (membership : Bool) (root : Bytes)
+def verifyFixedF (H : Bytes → Bytes) (H4 : Bytes → Bytes → Bytes → Bytes → Bytes) (n : Nat) (userKey value : Bytes) (membership : Bool) (root : Bytes)
     (proof : List PNode) : FVerdict :=
   match proof with
   | [] | [_] => .errInvalidProof
@@ -337,20 +352,23 @@ def verifyFixedF (H : Bytes → Bytes) (n : Nat) (userKey value : Bytes) (member
     let target := keyOfBytes n (H userKey)
     if target == rootKey n || target == minKey n || target == maxKey n then .errReserved else
     let proven := decodeKey p0.key
-    match foldFixed H proven p0.value 0 true rest with
+    match foldFixed H4 proven p0.value rest with
     | none => .errInvalidProof
-    | some (hash, branchBits) =>
+    | some hash =>
       if hash != root then .reject else
       let shared := (gcp target proven).length
-      if shared < branchBits then .reject else
+      if shared < branchBits proven rest then .reject else
       let nodeExists := encodeKey target == p0.key
       if !nodeExists && shared = proven.length then .reject
       else if (!nodeExists && membership) || (nodeExists && !membership) then .reject
       else if !nodeExists && !membership then .accept
       else if p0.value == H value then .accept else .reject
 
-def verifyFixed (H : Bytes → Bytes) (n : Nat) (userKey value : Bytes) (membership : Bool) (root : Bytes)
-    (proof : List PNode) : V.Verdict :=
-  (verifyFixedF H n userKey value membership root proof).toVerdict
+/-- `H` is `crypto.Hash` on user keys and values; `H4` the node hash (`h4 H` in the code: the hash of the unframed
+concatenation — kept as a separate parameter because the soundness theorem needs it injective on 4-tuples, which no
+function of a concatenation is) -/
+def verifyFixed (H : Bytes → Bytes) (H4 : Bytes → Bytes → Bytes → Bytes → Bytes) (n : Nat) (userKey value : Bytes)
+    (membership : Bool) (root : Bytes) (proof : List PNode) : V.Verdict :=
+  (verifyFixedF H H4 n userKey value membership root proof).toVerdict
 
 end Canopy.Smt
